@@ -200,7 +200,7 @@ func hostilePaths(r *rand.Rand, pattern string) []string {
 }
 
 func runC13(e *Env) {
-	e.Rule = "(a) rejection by construction: definitions invalid for exactly one stated reason (nil handler via GET/Add/AddRoute/Any-in-group; method list empty after trimming; unknown method tokens incl. prefixes and comma lists; capturing group in a variable regex in first/second/optional position; optional part not at the end; uncompilable regex; >= 63 handlers via variadic middleware (verb helpers and Any), Route.Use, Router.Use inside a top-level Group/Controller with a root prefix, group middleware, Router.Use inside a group and combinations incl. a pre-built route added inside a group; WithOptions after a route exists) must panic at registration, and their valid neighbours (62 handlers, case variants of methods, non-capturing groups) must be accepted. (b) totality after acceptance: fuzzed pattern strings (random over a metacharacter alphabet, and mutations of valid patterns), fuzzed method lists, handler counts 0..70, all option combinations incl. caching on a router without routes and InterceptAll; whatever registration accepts is probed with Match, QuickMatch and ServeHTTP over hostile methods and paths (empty, blank, non-UTF-8, 4 KiB, derived from the pattern): no panic out of the router. Non-trivial: every bad definition; every accepted fuzzed definition containing a metacharacter; distinct by definition. Handler counts up to 512; a quarter of the fuzzed definitions are registered for all nine methods; request methods outside the nine. A sixth of the totality cases register their route through an application-defined option function at a random position of the list given to New (the options behind it meet a router that already has a route). A quarter of the capturing-group / misplaced-optional / uncompilable-regex definitions carry the offending text in a Group prefix above a plain-text route. A quarter of the accepted routes are handed to AddRoute a second time (same or another router) before the lookups."
+	e.Rule = "(a) rejection by construction: definitions invalid for exactly one stated reason (nil handler via GET/Add/AddRoute/Any-in-group; method list empty after trimming; unknown method tokens incl. prefixes and comma lists; capturing group in a variable regex in first/second/optional position; optional part not at the end; uncompilable regex; >= 63 handlers via variadic middleware (verb helpers and Any), Route.Use, Router.Use inside a top-level Group/Controller with a root prefix, group middleware, Router.Use inside a group and combinations incl. a pre-built route added inside a group; WithOptions after a route exists) must panic at registration, and their valid neighbours (62 handlers, case variants of methods, non-capturing groups) must be accepted. (b) totality after acceptance: fuzzed pattern strings (random over a metacharacter alphabet, and mutations of valid patterns), fuzzed method lists, handler counts 0..70, all option combinations incl. caching on a router without routes and InterceptAll; whatever registration accepts is probed with Match, QuickMatch and ServeHTTP over hostile methods and paths (empty, blank, non-UTF-8, 4 KiB, derived from the pattern): no panic out of the router. Non-trivial: every bad definition; every accepted fuzzed definition containing a metacharacter; distinct by definition. Handler counts up to 512; a quarter of the fuzzed definitions are registered for all nine methods; request methods outside the nine. A sixth of the totality cases register their route through an application-defined option function at a random position of the list given to New (the options behind it meet a router that already has a route). A quarter of the capturing-group / misplaced-optional / uncompilable-regex definitions carry the offending text in a Group prefix above a plain-text route. A quarter of the accepted routes are handed to AddRoute a second time (same or another router, half of them below a group prefix that is refused) before the lookups."
 	e.Assumptions = []string{
 		"the handler limit is the per-route limit the registration code documents (group + route middleware); global middleware added with Router.Use at top level is not counted by it",
 		"a panic with any message counts as rejection",
@@ -336,7 +336,14 @@ func runC13(e *Env) {
 				if chance(r, 1, 2) {
 					target = rux.New()
 				}
-				_, _ = catch(func() { target.AddRoute(added) })
+				if chance(r, 1, 2) {
+					// ... below a group prefix that makes the definition invalid there (refused by a panic)
+					bad := pick(r, []string{"/{ver:(v1|v2)}", "/{a:(x)}/b", "/[x]/y", "/{v:[}"})
+					_, _ = catch(func() { target.Group(bad, func() { target.AddRoute(added) }) })
+					optDesc = append(optDesc, "(second registration below the group prefix "+bad+")")
+				} else {
+					_, _ = catch(func() { target.AddRoute(added) })
+				}
 				optDesc = append(optDesc, "(the accepted *Route was handed to AddRoute a second time, the outcome of that call ignored)")
 				t.Count("totality.route_object_registered_twice", 1)
 			}
